@@ -20,6 +20,12 @@ CLAIMED = {
         "Trusted: vlib/refsvg/arcref.py (self-tested on hand-computed arcs). End points closer than 1e-6 of the coordinate magnitude are fenced (ill-conditioned for any implementation).",
         "DESIGN.md 2/C12",
     ),
+    "C09": (
+        "exhaustive small-scope enumeration of command sequences + Hypothesis-generated paths/shapes, each rewrite compared with the input through an independent SVG path interpreter (control polygons / sampled Hausdorff distance / own shape outline formulae)",
+        "Exploration. All sequences of <=K commands (K=2 quick, 4 thorough) over the 20 commands on a small lattice are enumerated completely; longer float-valued sequences (incl. near-closing relative loops), and the seven basic shapes with degenerate parameters are sampled. Every public path rewrite is interpreted before/after by an independent implementation of SVG path semantics. Bounded scope + sampling, not proof.",
+        "Trusted: vlib/refsvg/geom.py interpreter and arcref (self-tested). Moveto-only subpaths are not compared; a shorthand directly after a zero-length (omitted) arc is fenced as spec-ambiguous; degenerate (zero-size) rect/circle/ellipse are only required to enclose nothing inside their box.",
+        "DESIGN.md 2/C09",
+    ),
 }
 
 NOT_YET = "check not built yet in this round (work in progress; see DESIGN.md section 5 for the order of work)"
